@@ -44,6 +44,7 @@ type c04branch struct {
 	bws     *zapcore.BufferedWriteSyncer
 	closeFn func()
 	flaky   bool // its device fails from some call on: not judged, but the other branches must not suffer
+	fork    int  // forked tees: 0 common to both loggers, 1/2 private to logger A/B
 	shares  int  // kind 5: index of the Lock(sink) branch whose locked syncer this branch writes to as well (-1 none)
 	shared  bool // another branch writes to this branch's locked syncer too
 	core    zapcore.Core
@@ -63,6 +64,7 @@ type c04call struct {
 }
 
 type c04task struct {
+	fork    int // forked tees: which of the two loggers (1/2) the task uses; 0 = the only logger
 	variant int
 	calls   []*c04call
 }
@@ -360,17 +362,53 @@ func runC04(c *Ctx) {
 			c.Fault("flaky-tee-branch")
 		}
 	}
-	var core zapcore.Core
-	if len(cores) == 1 && g.Chance(2) {
-		core = cores[0]
-	} else {
-		core = zapcore.NewTee(cores...)
-	}
 	var lopts []zap.Option
 	if withCaller {
 		lopts = append(lopts, zap.AddCaller())
 	}
-	base := zap.New(core, append(lopts, zap.ErrorOutput(zapcore.AddSync(io.Discard)))...)
+	allOpts := append(append([]zap.Option{}, lopts...), zap.ErrorOutput(zapcore.AddSync(io.Discard)))
+	// Tees of tees: in a quarter of the multi-branch runs two loggers are built
+	// on tees that extend one common parent tee (which itself was built by
+	// extending a tee), each adding branches of its own. Every branch still
+	// receives the full set of the entries logged through the loggers above it.
+	forked := len(cores) >= 2 && g.Chance(4)
+	bases := []*zap.Logger{nil, nil, nil}
+	if forked {
+		var parent zapcore.Core = cores[0]
+		var priv [3][]zapcore.Core
+		for bi := 1; bi < len(branches); bi++ {
+			branches[bi].fork = g.Draw(3)
+			if f := branches[bi].fork; f == 0 {
+				parent = zapcore.NewTee(parent, cores[bi])
+			} else {
+				priv[f] = append(priv[f], cores[bi])
+			}
+		}
+		for f := 1; f <= 2; f++ {
+			bases[f] = zap.New(zapcore.NewTee(append([]zapcore.Core{parent}, priv[f]...)...), allOpts...)
+		}
+	} else {
+		var core zapcore.Core
+		if len(cores) == 1 && g.Chance(2) {
+			core = cores[0]
+		} else {
+			core = zapcore.NewTee(cores...)
+		}
+		bases[0] = zap.New(core, allOpts...)
+	}
+	visible := func(br *c04branch, tk *c04task) bool { return br.fork == 0 || br.fork == tk.fork }
+	syncAll := func(sugared bool) {
+		for _, b := range bases {
+			if b == nil {
+				continue
+			}
+			if sugared {
+				_ = b.Sugar().Sync()
+			} else {
+				_ = b.Sync()
+			}
+		}
+	}
 
 	nTasks := 2 + g.Weighted(4, 3, 1)
 	maxCalls := 5
@@ -384,6 +422,9 @@ func runC04(c *Ctx) {
 	var tasks []*c04task
 	for t := 0; t < nTasks; t++ {
 		tk := &c04task{variant: g.Draw(8)}
+		if forked {
+			tk.fork = 1 + g.Draw(2)
+		}
 		n := 1 + g.Draw(maxCalls)
 		for s := 0; s < n; s++ {
 			call := &c04call{task: t, seq: s, lvl: stdLevels[g.Weighted(1, 4, 2, 2)], front: g.Draw(nFrontEnds), rich: g.Draw(20) - 10}
@@ -409,12 +450,12 @@ func runC04(c *Ctx) {
 	}
 	var desc []string
 	for b, br := range branches {
-		desc = append(desc, fmt.Sprintf("branch%d{>=%s console=%v stack=%s}", b, br.level, br.console, []string{"Lock(sink)", "Open(1)", "Open(2)", "Combine(2)", "Buffered", "Combine(own, the Lock(sink) of an earlier branch)"}[br.kind]))
+		desc = append(desc, fmt.Sprintf("branch%d{>=%s console=%v fork=%d stack=%s}", b, br.level, br.console, br.fork, []string{"Lock(sink)", "Open(1)", "Open(2)", "Combine(2)", "Buffered", "Combine(own, the Lock(sink) of an earlier branch)"}[br.kind]))
 	}
-	c.Describe("%s frag=%d pool=%d tasks=%d syncTask=%v ticks<=%d caller=%v sharedDerived=%v policy=%s", strings.Join(desc, " "), frag, poolPol, nTasks, syncTask, tickBudget, withCaller, shared, r.Policy)
+	c.Describe("%s frag=%d pool=%d tasks=%d syncTask=%v ticks<=%d caller=%v sharedDerived=%v forkedTees=%v policy=%s", strings.Join(desc, " "), frag, poolPol, nTasks, syncTask, tickBudget, withCaller, shared, forked, r.Policy)
 	for t, tk := range tasks {
 		var b strings.Builder
-		fmt.Fprintf(&b, "t%d(variant %d):", t, tk.variant)
+		fmt.Fprintf(&b, "t%d(variant %d, logger %d):", t, tk.variant, tk.fork)
 		for _, cl := range tk.calls {
 			fmt.Fprintf(&b, " %s/fe%d/pad%d", cl.lvl, cl.front, len(cl.pad))
 		}
@@ -425,8 +466,8 @@ func runC04(c *Ctx) {
 	sharedTL := map[int]*taskLogger{}
 	if shared {
 		for _, tk := range tasks {
-			if sharedTL[tk.variant] == nil {
-				sharedTL[tk.variant] = c04derive(base, tk.variant, 100+tk.variant)
+			if sharedTL[tk.fork*16+tk.variant] == nil {
+				sharedTL[tk.fork*16+tk.variant] = c04derive(bases[tk.fork], tk.variant, 100+tk.variant)
 			}
 		}
 	}
@@ -436,9 +477,9 @@ func runC04(c *Ctx) {
 		r.Go(fmt.Sprintf("t%d", t), func() {
 			var tl *taskLogger
 			if shared {
-				tl = sharedTL[tk.variant].perTask()
+				tl = sharedTL[tk.fork*16+tk.variant].perTask()
 			} else {
-				tl = c04derive(base, tk.variant, t)
+				tl = c04derive(bases[tk.fork], tk.variant, t)
 			}
 			for _, call := range tk.calls {
 				c04do(tl, call)
@@ -451,11 +492,7 @@ func runC04(c *Ctx) {
 		n := 1 + g.Draw(3)
 		r.Go("sync", func() {
 			for i := 0; i < n; i++ {
-				if i%2 == 0 {
-					_ = base.Sync()
-				} else {
-					_ = base.Sugar().Sync()
-				}
+				syncAll(i%2 == 1)
 				zsim.Yield(zsim.KOp, nil)
 			}
 		})
@@ -506,7 +543,7 @@ func runC04(c *Ctx) {
 			}
 		}
 	}
-	_ = base.Sync()
+	syncAll(false)
 	for _, br := range branches {
 		if br.closeFn != nil {
 			br.closeFn()
@@ -521,6 +558,9 @@ func runC04(c *Ctx) {
 		expect := map[string]*c04call{} // reference line -> call
 		expects[bi] = expect
 		for t, tk := range tasks {
+			if !visible(br, tk) {
+				continue // this task's logger does not include the branch
+			}
 			tl := c04derive(refBase, tk.variant, t)
 			if shared {
 				tl = c04derive(refBase, tk.variant, 100+tk.variant)
